@@ -216,9 +216,14 @@ inline vegas_pdf<T> vegas_refine_pdf(vegas_pdf<T> const& pdf, T alpha, std::vect
         tmp.back() = T(0.5) * (previous + current);
         norm += tmp.back();
 
-        // if norm is zero there is nothing to do here
+        // if norm is zero there is nothing to do here: keep the boundaries of this dimension
         if (norm == T())
         {
+            for (std::size_t bin = 1; bin != bins; ++bin)
+            {
+                new_pdf.set_bin_left(i, bin, pdf.bin_left(i, bin));
+            }
+
             continue;
         }
 
